@@ -1,7 +1,7 @@
 (** Bodies of the built-in functions of Context::default() (functions.rs), applied to the
     values their extractors produced. *)
 From Coq Require Import String.
-From Cel.Model Require Export Context Arith Compare FloatText.
+From Cel.Model Require Export Context Arith Compare FloatText Timestamp.
 From Coq Require Import Decimal DecimalZ.
 
 (** Decimal text of an integer as code points. *)
@@ -108,7 +108,8 @@ Definition b_string (this : value) : outcome value :=
                 | None => Err EOracle     (* from_utf8_lossy's replacement is not modelled *)
                 end
   | VDbl f => Ok (VStr (f64_to_text f))
-  | VTs _ _ | VDur _ => Err EOracle
+  | VDur d => Ok (VStr (format_duration_str d))
+  | VTs ns off => Ok (VStr (rfc3339 ns off))
   | _ => ferr
   end.
 
@@ -184,8 +185,22 @@ Definition run_builtin (b : builtin) (xs : list value) : outcome value :=
   | FDouble, [t] => b_double t
   | FInt, [t] => b_int t
   | FUint, [t] => b_uint t
-  | (FDuration | FTimestamp), [VStr _] => Err EOracle
-  | (FGetFullYear | FGetMonth | FGetDayOfYear | FGetDayOfMonth | FGetDate | FGetDayOfWeek
-     | FGetHours | FGetMinutes | FGetSeconds | FGetMilliseconds), [VTs _ _] => Err EOracle
+  | FDuration, [VStr s] => match parse_duration s with Some ns => Ok (VDur ns) | None => ferr end
+  | FTimestamp, [VStr s] =>
+      match parse_rfc3339 s with
+      | Some (Some (ns, off)) => Ok (VTs ns off)
+      | Some None => Err EOracle
+      | None => ferr
+      end
+  | FGetFullYear, [VTs ns off] => Ok (VInt (access AYear ns off))
+  | FGetMonth, [VTs ns off] => Ok (VInt (access AMonth ns off))
+  | FGetDayOfYear, [VTs ns off] => Ok (VInt (access ADayOfYear ns off))
+  | FGetDayOfMonth, [VTs ns off] => Ok (VInt (access ADayOfMonth ns off))
+  | FGetDate, [VTs ns off] => Ok (VInt (access ADate ns off))
+  | FGetDayOfWeek, [VTs ns off] => Ok (VInt (access ADayOfWeek ns off))
+  | FGetHours, [VTs ns off] => Ok (VInt (access AHours ns off))
+  | FGetMinutes, [VTs ns off] => Ok (VInt (access AMinutes ns off))
+  | FGetSeconds, [VTs ns off] => Ok (VInt (access ASeconds ns off))
+  | FGetMilliseconds, [VTs ns off] => Ok (VInt (access AMillis ns off))
   | _, _ => Crash 90      (* extractor signature and body disagree: impossible by default_funs *)
   end.
